@@ -44,6 +44,7 @@ class Doc:
         self.features = set()
         self.dead_sub = None
         self.cont_order = "as_is"
+        self.foreign_note = None
         self.alt_root = None
         self.root_abstract = True
 
@@ -196,6 +197,10 @@ def draw_type(ch, doc, idx, int_refs, force_ref=False):
     elif kind == "enum":
         bits = ch.pick((2, 1, 3), "ebits")
         labels = [E("Enumeration", {"value": str(v), "label": f"L{v}_{idx}"}, []) for v in range(1 << bits)]
+        if ch.chance(1, 3, "enum_dup_label"):
+            # XTCE allows several raw values to carry the same label (anything keyed by the label confuses them)
+            labels[-1][1]["label"] = labels[0][1]["label"]
+            doc.features.add("enum_shared_label")
         node = E("EnumeratedParameterType", {"name": name}, unit_nodes + [_int_encoding(bits, "unsigned"),
                                                                            E("EnumerationList", {}, labels)])
         k.update(bits=bits)
@@ -268,10 +273,22 @@ def draw_type(ch, doc, idx, int_refs, force_ref=False):
             size_children.append(E("TerminationChar", text="00"))
         elif mode == "lead":
             size_children.append(E("LeadingSize", {"sizeInBitsOfSizeTag": "8"}, []))
-        enc = ch.pick(("ISO-8859-1", "US-ASCII", "UTF-8"), "strenc")
+        enc = ch.pick(("ISO-8859-1", "US-ASCII", "UTF-8", "UTF-8", "UTF-16", "UTF-16BE", "UTF-16LE"), "strenc")
+        enc_attrs = {"encoding": enc}
+        if enc.startswith("UTF-16"):
+            # two-byte characters: even sizes, no termination character (a two-byte needle may match across characters)
+            nbytes = ch.pick((4, 2, 8), "str16bytes")
+            if mode == "term":
+                mode = "raw"
+            size_children = [E("Fixed", {}, [E("FixedValue", text=str(nbytes * 8))])]
+            if mode == "lead":
+                size_children.append(E("LeadingSize", {"sizeInBitsOfSizeTag": "8"}, []))
+            if enc == "UTF-16":
+                enc_attrs["byteOrder"] = ch.pick(("leastSignificantByteFirst", "mostSignificantByteFirst"), "str16order")
+            doc.features.add("utf16_string")
         node = E("StringParameterType", {"name": name}, unit_nodes + [
-            E("StringDataEncoding", {"encoding": enc}, [E("SizeInBits", {}, size_children)])])
-        k.update(nbytes=nbytes, mode=mode)
+            E("StringDataEncoding", enc_attrs, [E("SizeInBits", {}, size_children)])])
+        k.update(nbytes=nbytes, mode=mode, enc=enc)
     elif kind == "strdyn":
         ref = ch.pick(int_refs, "strref")
         dv = [E("ParameterInstanceRef", {"parameterRef": ref, "useCalibratedValue": "false"}, []),
@@ -424,6 +441,7 @@ def draw_doc(ch, tag="D"):
     # order of the SequenceContainer elements inside ContainerSet: base and nested containers may be defined after the
     # containers that refer to them (forward references)
     doc.cont_order = ch.pick(("as_is", "reversed", "rotated"), "cont_order")
+    doc.foreign_note = ch.weighted([(7, None), (1, "default"), (1, "prefixed"), (1, "rebind")], "foreign_note")
     # pad every leaf to a whole number of bytes (dynamic fields are always whole bytes) so that packets
     # built for a leaf are consumed exactly; wrong-length packets are then made on purpose, not by accident
     byname = {c["name"]: c for c in doc.containers}
@@ -563,6 +581,10 @@ def render(doc, rd):
 
     def emit(node, depth, root=False):
         tag, attrs, children, text = node
+        if tag is None:
+            # literal, already serialised content (a subtree in a foreign namespace); {P} is a prefix bound by the document
+            out.append(f"{nl}{ind * depth}" + text.replace("{P}", rd["prefix"] if rd["ns"] == "prefix" else "zz"))
+            return
         a = "".join(f' {k}="{_esc(v, True)}"' for k, v in attrs.items())
         if root:
             if rd["ns"] == "prefix":
@@ -630,8 +652,19 @@ def doc_tree(doc):
     elif doc.cont_order == "rotated" and len(conts) > 1:
         conts = conts[1:] + conts[:1]
         doc.features.add("forward_container_refs")
+    header_children = []
+    foreign = getattr(doc, "foreign_note", None)
+    if foreign:
+        # a note carrying a subtree in a foreign namespace that declares its own namespaces: a default namespace, a
+        # prefix of its own, or (legal XML) a rebinding of the prefix the document uses for XTCE, all scoped to the subtree
+        literal = {"default": '<div xmlns="http://www.w3.org/1999/xhtml"><p>operator note</p></div>',
+                   "prefixed": '<ext:info xmlns:ext="urn:example:ext" ext:level="1"><ext:text>operator note</ext:text></ext:info>',
+                   "rebind": '<n:info xmlns:n="urn:example:ext" xmlns:{P}="urn:example:other"><{P}:Parameter name="not XTCE"/></n:info>',
+                   }[foreign]
+        header_children = [E("NoteSet", {}, [E("Note", {}, [(None, {}, None, literal)])])]
+        doc.features.add("foreign_subtree")
     return E("SpaceSystem", {"name": doc.name}, [
-        E("Header", {"date": "2026-01-01T00:00:00", "version": "1.0", "validationStatus": "Working"}, []),
+        E("Header", {"date": "2026-01-01T00:00:00", "version": "1.0", "validationStatus": "Working"}, header_children),
         E("TelemetryMetaData", {}, [
             E("ParameterTypeSet", {}, [n for (_, n, _) in doc.types]),
             E("ParameterSet", {}, params),
@@ -732,11 +765,31 @@ def encode_packet(doc, chain, apid, fixed, sub, count=0, version=0, flags=3):
         elif kind == "strfixed":
             nb = k["nbytes"]
             txt = bytes(0x41 + (rnd(8) % 26) for _ in range(nb))
+            senc = k.get("enc", "")
+            style = rnd(8)
+            if senc.startswith("UTF-16"):
+                # with or without a byte-order mark, in either byte order (a decoder that remembers the mark of an
+                # earlier string reads a later one wrongly)
+                bom = (b"", b"\xff\xfe", b"\xfe\xff")[style % 3]
+                big = bom == b"\xfe\xff" or (not bom and senc == "UTF-16BE")
+                chars = b"".join((b"\x00" + bytes([c])) if big else (bytes([c]) + b"\x00") for c in txt)
+                txt = (bom + chars)[:nb]
+            elif senc == "UTF-8" and style % 4 == 0 and k["mode"] == "raw":
+                # multi-byte characters; one time in four the last one is cut off by the end of the field
+                multi = "".join(("\u00e9", "\u20ac", "\u00df", "A")[(style >> (2 + 2 * j)) % 4] for j in range(3)).encode("utf-8") * 3
+                txt = multi[:nb] if (style >> 2) % 4 == 0 else (multi[:nb].decode("utf-8", "ignore").encode("utf-8") + b"AAAAAAAA")[:nb]
+                if (style >> 2) % 4 != 0:
+                    try:
+                        txt.decode("utf-8")
+                    except UnicodeDecodeError:
+                        txt = bytes(0x41 + (c % 26) for c in txt)
             if k["mode"] == "term":
                 cut = rnd(8) % nb
                 txt = txt[:cut] + b"\x00" + txt[cut + 1:]
             elif k["mode"] == "lead":
                 ln = rnd(8) % nb
+                if senc.startswith("UTF-16") and style % 8 != 7:
+                    ln &= ~1                  # whole two-byte characters (one time in eight: an odd count, legal to declare)
                 txt = bytes([ln * 8]) + txt[1:]
             bits.put_bytes(txt)
         elif kind == "strdyn":
